@@ -30,7 +30,8 @@ def pty(p):
             "st1": lambda: "St1<%s>" % lt(s[0]), "st2": lambda: "St2<%s, %s>" % (lt(s[0]), lt(s[1])),
             "st2b": lambda: "St2b<%s, %s>" % (lt(s[0]), lt(s[1])),
             "nst2": lambda: "Nst2<%s, %s>" % (lt(s[0]), lt(s[1])),
-            "stv": lambda: "StV<%s, %s>" % (lt(s[0]), lt(s[1]))}[k]()
+            "stv": lambda: "StV<%s, %s>" % (lt(s[0]), lt(s[1])),
+            "pself": lambda: amp(s[0]) + "Self"}[k]()
 
 
 def rty(r):
